@@ -161,6 +161,7 @@ def run_shape(args):
                     res['samples'].append({'scenario': describe(ex, shape, n, table, m), 'listing': got})
         E.run_all(h, on_path)
         res['paths'] += E.stats.paths
+        res['nontrivial'] = res.get('nontrivial', 0) + E.stats.nontrivial
         res['queries'] += E.stats.queries
         res['solver_s'] += E.stats.solver_s
         res['functions'] |= E.stats.functions
@@ -216,6 +217,7 @@ def run_shape_n(prog, shape, n):
                 res['samples'].append({'scenario': describe(ex, shape, n, table, m), 'listing': got})
     E.run_all(h, on_path)
     res['paths'] += E.stats.paths
+    res['nontrivial'] = res.get('nontrivial', 0) + E.stats.nontrivial
     res['queries'] += E.stats.queries
     res['solver_s'] += E.stats.solver_s
     res['functions'] |= E.stats.functions
@@ -248,14 +250,14 @@ def sweep(prog, nbands, layouts, tier, deadline, procs=16):
     import time
     _PROG[0] = prog
     shapes_l = list(gen_shapes(nbands, layouts))
-    tot = {'paths': 0, 'queries': 0, 'solver_s': 0.0, 'bad': [], 'inconclusive': [], 'functions': set(), 'models': set(),
+    tot = {'paths': 0, 'queries': 0, 'solver_s': 0.0, 'nontrivial': 0, 'bad': [], 'inconclusive': [], 'functions': set(), 'models': set(),
            'samples': [], 'shapes': len(shapes_l), 'shapes_done': 0}
     ctx = mp.get_context('fork')
     with ctx.Pool(procs) as pool:
         for shape, r in pool.imap_unordered(_worker, [(s, tier) for s in shapes_l], chunksize=4):
             tot['shapes_done'] += 1
-            for k in ('paths', 'queries', 'solver_s'):
-                tot[k] += r[k]
+            for k in ('paths', 'queries', 'solver_s', 'nontrivial'):
+                tot[k] += r.get(k, 0)
             tot['bad'] += r['bad']
             tot['inconclusive'] += r['inconclusive']
             tot['functions'] |= r['functions']
@@ -408,13 +410,14 @@ def make_deep(prog, shape):
 
 def sweep_deep(prog, shapes_l, deadline, procs=16):
     from ..interp import parallel_explore
-    tot = {'paths': 0, 'queries': 0, 'solver_s': 0.0, 'bad': [], 'inconclusive': [], 'functions': set(), 'models': set(),
+    tot = {'paths': 0, 'queries': 0, 'solver_s': 0.0, 'nontrivial': 0, 'bad': [], 'inconclusive': [], 'functions': set(), 'models': set(),
            'samples': [], 'shapes': len(shapes_l), 'shapes_done': 0}
     for shape in shapes_l:
         res, st, fns, mods, inc = parallel_explore(prog, make_deep(prog, shape), depth=7, procs=procs, deadline=deadline,
                                                    max_paths=100000, step_budget=400000)
         tot['shapes_done'] += 1
         tot['paths'] += st['paths']
+        tot['nontrivial'] += st.get('nontrivial', 0)
         tot['queries'] += st['queries']
         tot['solver_s'] += st['solver_s']
         tot['bad'] += res['bad']
